@@ -399,6 +399,46 @@ def run_case(c):
                 bad('oracle', f'get_tracefield_values({f})', f'{"stored" if f in stored else "constant"} field: not the grid with zeros at holes: '
                     f'got {got.tolist()} expected {exp.tolist()}')
         R.count('tracefield_reads', nread)
+    # ---- the same on ONE reader in a mixed order (header i, grids of several fields, header j, 1-d arrays): what is held
+    # from an earlier call (arrays in the other padding mode, a partly filled memo) must not leak into a later answer
+    hrng = random.Random(a.seed * 7919 + n * 31 + n_il)
+    grid_fields = [f for f in ALL_FIELDS if f in faithful and (f in stored or guard)]
+    if grid_fields and guard:          # (sources with inline number 0 are the known finding D20: their mask is wrong anyway)
+        with SgzReader(sgz) as r3:
+            ops = []
+            for _ in range(8):
+                k = hrng.randrange(3)
+                ops.append(('hdr', hrng.choice([0, n - 1, hrng.randrange(n)])) if k == 0 else
+                           ('grid', hrng.choice(grid_fields[-4:] + [hrng.choice(grid_fields)])) if k == 1 else
+                           ('1d', hrng.choice([f for f in grid_fields if f in stored] or grid_fields)))
+            if not any(o[0] == 'hdr' for o in ops[:3]):
+                ops.insert(0, ('hdr', n - 1))
+            done = []
+            for op, arg in ops:
+                done.append(f'{op}({arg})')
+                try:
+                    if op == 'hdr':
+                        got = {int(k): int(v) for k, v in r3.gen_trace_header(arg).items()}
+                        expd = {f: src_hd[arg][f] for f in got if f in faithful}
+                        if {f: got[f] for f in expd} != expd:
+                            bad('oracle', 'mixed order on one reader', f'after {done[:-1]}: gen_trace_header({arg}) differs from source header in '
+                                f'{sorted(f for f in expd if got[f] != expd[f])[:6]}')
+                            break
+                    else:
+                        exp = np.zeros((n_il, n_xl), dtype=np.int64)
+                        for t, (i, x) in enumerate(idx):
+                            exp[i, x] = src_hd[t][arg]
+                        got = r3.get_tracefield_values(arg) if op == 'grid' else r3.get_tracefield_1d(arg)
+                        if op == '1d':
+                            exp = exp.flatten() if got.shape[0] == n_il * n_xl else np.array([src_hd[t][arg] for t in range(n)], dtype=np.int64)
+                        if got.shape != exp.shape or not np.array_equal(np.asarray(got).astype(np.int64), exp):
+                            bad('oracle', 'mixed order on one reader', f'after {done[:-1]}: {done[-1]} is not the source values '
+                                f'(shape {got.shape}, expected {exp.shape})')
+                            break
+                except Exception as e:
+                    bad('oracle', 'mixed order on one reader', f'after {done[:-1]}: {done[-1]} raised {type(e).__name__}: {str(e)[:120]}')
+                    break
+            R.count('mixed-order header sequences')
     nontriv = (n < n_il * n_xl)
     R.case(canon(c), nontrivial=nontriv, sample={k: c[k] for k in ('n_il', 'n_xl', 'pattern', 'il0', 'ils', 'xl0', 'xls', 'ns', 'bpv', 'bs', 'mode')})
     if a.no_model:
